@@ -58,7 +58,7 @@ ALL_TRAITS = list(itertools.product((0, 1), repeat=4))     # (pocca, pocma, pocs
 
 def job(mc, dr, fmode, n=None, tags=(), label=''):
     return dict(mc=mc, drv=dr, fmode=fmode, max_stims=n, tags=set(tags), label=label,
-                l2=('one' in tags and 'tracked' in tags and 'fault' in tags and 'san' not in tags))
+                l2=(('one' in tags or 'two' in tags) and 'tracked' in tags and 'fault' in tags and 'san' not in tags))
 
 
 def regress_jobs():
